@@ -14,11 +14,29 @@ type c13Case struct {
 	HdrCap int
 	ValCap int
 	Cut    int
+	Reuse  bool `json:",omitempty"` // the object and its arrays were used before (see parseMsgReuse)
 }
 
+var c13Prev5 = []byte("REGISTER sip:r SIP/2.0\r\nVia: SIP/2.0/UDP h\r\nFrom: <sip:f@g>;tag=1\r\nTo: <sip:f@g>\r\nCall-ID: prev\r\nCSeq: 9 REGISTER\r\nContact: <sip:1@h>;expires=100, <sip:2@h>, <sip:3@h>;q=0.2\r\nX-A: 1\r\nX-B: 2\r\nm: <sip:4@h>, <sip:5@h>;expires=7\r\nP-Asserted-Identity: <sip:p@q>, <tel:1>\r\nExpires: 3\r\nl: 0\r\n\r\n")
+var c13Prev1 = []byte("OPTIONS sip:o SIP/2.0\r\nContact: <sip:one@h>\r\nl: 0\r\n\r\n")
+
 func parseMsgCfg(buf []byte, hc, vc int, flags uint8, cut int) (*sipsp.PSIPMsg, int, sipsp.ErrorHdr) {
+	return parseMsgReuse(buf, hc, vc, flags, cut, false)
+}
+
+// parseMsgReuse: with reuse the message object has a history - it parsed a 5-contact message into the arrays, was
+// re-initialised with a second set of arrays of the same capacities for a 1-contact message, and then got the first
+// set back through Init: capacities must matter as little as on a new object.
+func parseMsgReuse(buf []byte, hc, vc int, flags uint8, cut int, reuse bool) (*sipsp.PSIPMsg, int, sipsp.ErrorHdr) {
 	m := new(sipsp.PSIPMsg)
-	m.Init(nil, mkHdrs(hc), mkVals(vc))
+	ah, av := mkHdrs(hc), mkVals(vc)
+	if reuse {
+		m.Init(nil, ah, av)
+		sipsp.ParseSIPMsg(c13Prev5, 0, m, 0)
+		m.Init(nil, mkHdrs(hc), mkVals(vc))
+		sipsp.ParseSIPMsg(c13Prev1, 0, m, 0)
+	}
+	m.Init(nil, ah, av)
 	offs := 0
 	if cut > 0 && cut < len(buf) {
 		n, e := sipsp.ParseSIPMsg(buf[:cut], 0, m, flags)
@@ -68,7 +86,7 @@ func evalC13(cs *c13Case) (vs []*Violation, ok bool) {
 	if cs.Cut >= 0 && !am.PV.CLen.Parsed() && cs.Flags&sipsp.SIPMsgSkipBodyF == 0 {
 		return // without Content-Length the body is "the rest of the buffer": a prefix legitimately gives a different result
 	}
-	m, n, e := parseMsgCfg(buf, cs.HdrCap, cs.ValCap, cs.Flags, cs.Cut)
+	m, n, e := parseMsgReuse(buf, cs.HdrCap, cs.ValCap, cs.Flags, cs.Cut, cs.Reuse)
 	if e != ae || n != an {
 		add("verdict-and-offset-independent-of-capacity", errName(e), fmt.Sprintf("caps %d/%d: (%d,%v) ample: (%d,%v)", cs.HdrCap, cs.ValCap, n, e, an, ae))
 		return
@@ -267,6 +285,14 @@ func checkC13(r *Run) {
 						}
 						cs := &c13Case{Msg: msg, Flags: f, HdrCap: hc, ValCap: vc, Cut: cut}
 						vs, ok := evalC13(cs)
+						if ok && cut < 0 {
+							// the same from a non-initial state: object and arrays with a history
+							cs2 := *cs
+							cs2.Reuse = true
+							v2, _ := evalC13(&cs2)
+							vs = append(vs, v2...)
+							c.st.Transitions += 4
+						}
 						c.st.Transitions += 2
 						c.st.Evals++
 						c.st.Outcomes[fmt.Sprintf("parsed=%v hdrcap=%d", ok, hc)]++
